@@ -24,6 +24,9 @@ type c14Case struct {
 	// expectations
 	WantOK   bool `json:",omitempty"` // must exit 0
 	WantFail bool `json:",omitempty"` // must exit != 0
+	// Extreme: run on the real binary under a 4 GiB address-space limit and a 20 s
+	// deadline (normal runs of these journals take < 20 ms and < 20 MB)
+	Extreme bool `json:",omitempty"`
 }
 
 var c14Commands = [][]string{
@@ -51,13 +54,22 @@ func c14One(drv *core.Driver, cs c14Case) (string, string, *core.Outcome) {
 			os.RemoveAll(filepath.Join(drv.Dir, d))
 		}
 	}()
-	out := drv.Run(nil, cs.Args...)
+	var out *core.Outcome
+	if cs.Extreme {
+		out = drv.RunBinaryLimited(20*time.Second, 4<<30, cs.Args...)
+	} else {
+		out = drv.Run(nil, cs.Args...)
+	}
 	cmd := cs.Args[0]
 	if cmd == "portfolio" || cmd == "check" && len(cs.Args) > 1 && cs.Args[1] == "--write" {
 		cmd += "_" + strings.TrimPrefix(cs.Args[1], "--")
 	}
 	ctx := fmt.Sprintf("\ncommand: knut %s\nfiles: %q", strings.Join(cs.Args, " "), cs.Files)
 	switch {
+	case cs.Extreme && out.Horizon:
+		return "C14:hang:" + cs.Class, "the command was still running after 20 s (a run with ordinary flag values takes < 20 ms)" + ctx, out
+	case cs.Extreme && out.Panic != "" && (strings.Contains(out.Panic, "out of memory") || strings.Contains(out.Panic, "cannot allocate")):
+		return "C14:memory-exhaustion:" + cs.Class, "the command needs more than 4 GiB: " + clip(out.Panic, 300) + ctx, out
 	case out.Panic != "":
 		return "C14:panic:" + panicSite(out.Panic), "the command panics: " + clip(out.Panic, 1500) + ctx, out
 	case out.Deadlock:
@@ -173,6 +185,22 @@ func c14FlagCases() []c14Case {
 	} {
 		add(append(append([]string{"balance", "--color=false"}, fl...), "j.knut")...)
 	}
+	// extreme numeric flag values (run on the real binary under resource limits)
+	ext := func(class string, args ...string) {
+		cs = append(cs, c14Case{Files: files, Args: args, Class: class, Extreme: true})
+	}
+	for _, n := range []string{"2147483647", "-2147483648", "100000000"} {
+		ext("extreme-digits", "balance", "--color=false", "--digits", n, "j.knut")
+		ext("extreme-digits", "balance", "--color=false", "--csv", "--digits", n, "j.knut")
+		ext("extreme-digits", "portfolio", "weights", "-v", "CHF", "--color=false", "--digits", n, "j.knut")
+		ext("extreme-last", "balance", "--color=false", "--days", "--last", n, "j.knut")
+		ext("extreme-last", "portfolio", "returns", "-v", "CHF", "--days", "--last", n, "j.knut")
+		ext("extreme-mapping", "balance", "--color=false", "-m", n+",.", "j.knut")
+		ext("extreme-mapping", "balance", "--color=false", "-m", "1:"+n+",.", "j.knut")
+	}
+	ext("extreme-window", "balance", "--color=false", "--days", "--from", "0001-01-01", "--to", "9999-12-31", "j.knut")
+	ext("extreme-window", "portfolio", "returns", "-v", "CHF", "--days", "--from", "0001-01-01", "--to", "9999-12-31", "j.knut")
+	ext("extreme-window", "portfolio", "weights", "-v", "CHF", "--color=false", "--days", "--from", "0001-01-01", "--to", "9999-12-31", "j.knut")
 	return cs
 }
 
